@@ -142,3 +142,114 @@ theorem C04_resync_midfield (g p f0 : Bytes) (rest : List Bytes) (ms : List (Lis
     simpa [List.append_assoc] using this
   rw [e, List.append_assoc, feedAll_append, h1, feedAll_append, feedAll_message_from _ rest hm, C04_frame ms h]
   simp [List.append_assoc]
+
+/-! ### every byte stream: nothing lost, nothing invented, only well-formed frames handed over
+
+The theorems above start from well-formed messages. These two quantify over **every byte stream** (hostile, damaged,
+cut anywhere) and every reader state: the bytes handed over followed by the bytes still buffered are exactly the bytes
+buffered before followed by the bytes read — no byte is lost, duplicated, reordered or invented — and everything handed
+over is a sequence of complete SOH-terminated fields of which the last, and only the last, is an end-of-message field
+(so `10=` is recognised only at a field boundary: the reader half of C18). -/
+theorem feed_conserve (s : RState) (b : UInt8) :
+    (match (feed s b).2 with | some m => m | none => []) ++ ((feed s b).1.msg ++ (feed s b).1.seg) = s.msg ++ s.seg ++ [b] := by
+  unfold feed
+  dsimp only
+  by_cases hb : b = SOH
+  · rw [if_pos hb]
+    by_cases h3 : (s.seg ++ [b]).length ≥ 3 ∧ (s.seg ++ [b]).take 3 = endOfMsgTag
+    · rw [if_pos h3]; simp [List.append_assoc]
+    · rw [if_neg h3]; simp [List.append_assoc]
+  · rw [if_neg hb]; simp [List.append_assoc]
+
+theorem C04_conservation (s : RState) (bs : Bytes) :
+    (feedAll s bs).2.flatten ++ ((feedAll s bs).1.msg ++ (feedAll s bs).1.seg) = s.msg ++ s.seg ++ bs := by
+  induction bs generalizing s with
+  | nil => simp [feedAll]
+  | cons b bs ih =>
+    simp only [feedAll]
+    have h1 := feed_conserve s b
+    have h2 := ih (feed s b).1
+    cases hf : (feed s b).2 with
+    | none =>
+      rw [hf] at h1
+      simp only [List.nil_append] at h1 ⊢
+      rw [h2, h1]; simp [List.append_assoc]
+    | some m =>
+      rw [hf] at h1
+      simp only [List.flatten_append, List.flatten_cons, List.flatten_nil, List.append_nil, List.append_assoc] at h1 ⊢
+      rw [h2, ← List.append_assoc m, ← List.append_assoc m, List.append_assoc m, h1]; simp [List.append_assoc]
+
+/-- reader states reachable from idle: the current segment has no SOH, the accumulated message is a sequence of
+    complete SOH-free fields none of which is an end-of-message field -/
+def GoodSt (s : RState) : Prop :=
+  SOH ∉ s.seg ∧ ∃ fs, s.msg = wireOf fs ∧ (∀ f ∈ fs, SOH ∉ f) ∧ ∀ f ∈ fs, starts10 f = false
+
+theorem wireOf_snoc (fs : List Bytes) (f : Bytes) : wireOf (fs ++ [f]) = wireOf fs ++ (f ++ [SOH]) := by simp [wireOf]
+
+theorem feed_good (s : RState) (b : UInt8) (h : GoodSt s) :
+    GoodSt (feed s b).1 ∧ ∀ m, (feed s b).2 = some m → ∃ fields, m = wireOf fields ∧ WFWire fields := by
+  obtain ⟨hseg, fs, hmsg, hns, hn10⟩ := h
+  unfold feed
+  dsimp only
+  by_cases hb : b = SOH
+  · rw [if_pos hb]
+    subst hb
+    by_cases h3 : (s.seg ++ [SOH]).length ≥ 3 ∧ (s.seg ++ [SOH]).take 3 = endOfMsgTag
+    · rw [if_pos h3]
+      have hs := (take3_prefix s.seg).mp h3
+      refine ⟨⟨by simp, [], by simp [wireOf], by simp, by simp⟩, ?_⟩
+      intro m hm
+      simp only [Option.some.injEq] at hm
+      refine ⟨fs ++ [s.seg], by rw [← hm, hmsg, wireOf_snoc], ?_, ⟨fs, s.seg, rfl, hs, hn10⟩⟩
+      intro f hf
+      rcases List.mem_append.mp hf with hf | hf
+      · exact hns f hf
+      · simp at hf; subst hf; exact hseg
+    · rw [if_neg h3]
+      have hs : starts10 s.seg = false := by
+        cases hh : starts10 s.seg with
+        | false => rfl
+        | true => exact absurd ((take3_prefix s.seg).mpr hh) h3
+      refine ⟨⟨by simp, fs ++ [s.seg], by simp [hmsg, wireOf_snoc], ?_, ?_⟩, by simp⟩
+      · intro f hf
+        rcases List.mem_append.mp hf with hf | hf
+        · exact hns f hf
+        · simp at hf; subst hf; exact hseg
+      · intro f hf
+        rcases List.mem_append.mp hf with hf | hf
+        · exact hn10 f hf
+        · simp at hf; subst hf; exact hs
+  · rw [if_neg hb]
+    refine ⟨⟨?_, fs, hmsg, hns, hn10⟩, by simp⟩
+    simp only [List.mem_append, List.mem_singleton, not_or]
+    exact ⟨hseg, fun h => hb h.symm⟩
+
+/-- **for every byte stream whatsoever** (damaged, hostile, cut anywhere): everything the reader hands over is a
+    well-formed frame — complete SOH-terminated fields, the last one and only the last an end-of-message field -/
+theorem C04_only_frames (s : RState) (bs : Bytes) (h : GoodSt s) :
+    GoodSt (feedAll s bs).1 ∧ ∀ m ∈ (feedAll s bs).2, ∃ fields, m = wireOf fields ∧ WFWire fields := by
+  induction bs generalizing s with
+  | nil => exact ⟨h, by simp [feedAll]⟩
+  | cons b bs ih =>
+    obtain ⟨g1, d1⟩ := feed_good s b h
+    obtain ⟨g2, d2⟩ := ih (feed s b).1 g1
+    simp only [feedAll]
+    refine ⟨g2, ?_⟩
+    intro m hm
+    rcases List.mem_append.mp hm with hm | hm
+    · cases hf : (feed s b).2 with
+      | none => rw [hf] at hm; simp at hm
+      | some m' => rw [hf] at hm; simp at hm; rw [hm]; exact d1 m' hf
+    · exact d2 m hm
+
+theorem goodSt_idle : GoodSt RState.idle := ⟨by simp [RState.idle], [], by simp [RState.idle, wireOf], by simp, by simp⟩
+
+/-- from a fresh connection, for every byte stream and every chunking -/
+theorem C04_stream_exact (chunks : List Bytes) :
+    let r := feedChunks RState.idle chunks
+    r.2.flatten ++ (r.1.msg ++ r.1.seg) = chunks.flatten
+    ∧ ∀ m ∈ r.2, ∃ fields, m = wireOf fields ∧ WFWire fields := by
+  simp only [C04_chunk]
+  refine ⟨?_, (C04_only_frames RState.idle chunks.flatten goodSt_idle).2⟩
+  have := C04_conservation RState.idle chunks.flatten
+  simpa [RState.idle] using this
